@@ -382,3 +382,56 @@ macro_rules! lemire_harness {
 }
 lemire_harness!(c11_lemire_truncated_f64, f64, F64);
 lemire_harness!(c11_lemire_truncated_f32, f32, F32);
+
+// ---------------------------------------------------------------- exact ties at negative exponents
+//
+// For q = -k inside the tie window an exact rounding tie has the form
+//   w = (2m+1) * 5^k  with 2m+1 of ms+2 bits,  w * 10^-k = (2m+1) * 2^-k,
+// and must be rounded to the even neighbour.  Checked with the REAL multiplication for each k
+// separately (the power 5^k and the table entry are then constants for the SAT back end).
+fn pow5(k: u32) -> u64 {
+    let mut p: u64 = 1;
+    let mut i = 0;
+    while i < k {
+        p *= 5;
+        i += 1;
+    }
+    p
+}
+
+macro_rules! lemire_neg_tie {
+    ($name:ident, $t:ty, $fmt:expr, $k:expr) => {
+        #[kani::proof]
+        #[kani::unwind(20)]
+        fn $name() {
+            // odd significand of exactly ms + 2 bits: 2^(ms+1) <= 2m+1 < 2^(ms+2)
+            let odd: u64 = kani::any();
+            kani::assume(odd & 1 == 1 && odd >> ($fmt.ms + 1) == 1);
+            let p5 = pow5($k);
+            kani::assume(odd <= u64::MAX / p5);
+            let w = odd * p5;
+            let fp = compute_float::<$t>(-($k as i32), w);
+            assert!(fp.exp >= 0, "C11 an exact tie inside the window is decided, not declined");
+            let bits = fp.mant | ((fp.exp as u64) << $fmt.ms);
+            // exact value = odd * 2^-k, as a normalised 64-bit significand
+            let lz = odd.leading_zeros();
+            let mant = odd << lz;
+            let e2 = -($k as i32) - lz as i32;
+            assert!(spec_is_rne_value($fmt, mant, e2, false, bits), "C11 exact tie at a negative exponent rounds to even");
+            kani::cover!(odd & 2 == 0, "tie whose lower neighbour is even");
+            kani::cover!(odd & 2 == 2, "tie whose upper neighbour is even");
+        }
+    };
+}
+lemire_neg_tie!(c11_lemire_neg_tie_f64_k1, f64, F64, 1);
+lemire_neg_tie!(c11_lemire_neg_tie_f64_k2, f64, F64, 2);
+lemire_neg_tie!(c11_lemire_neg_tie_f64_k3, f64, F64, 3);
+lemire_neg_tie!(c11_lemire_neg_tie_f64_k4, f64, F64, 4);
+lemire_neg_tie!(c11_lemire_neg_tie_f32_k1, f32, F32, 1);
+lemire_neg_tie!(c11_lemire_neg_tie_f32_k5, f32, F32, 5);
+lemire_neg_tie!(c11_lemire_neg_tie_f32_k9, f32, F32, 9);
+lemire_neg_tie!(c11_lemire_neg_tie_f32_k11, f32, F32, 11);
+lemire_neg_tie!(c11_lemire_neg_tie_f32_k13, f32, F32, 13);
+lemire_neg_tie!(c11_lemire_neg_tie_f32_k15, f32, F32, 15);
+lemire_neg_tie!(c11_lemire_neg_tie_f32_k16, f32, F32, 16);
+lemire_neg_tie!(c11_lemire_neg_tie_f32_k17, f32, F32, 17);
